@@ -99,6 +99,7 @@ func c07Records() []mockq.Rec {
 var c07Data = c07Records()
 
 func c07Check(r *vkit.Run, in c07Input) bool {
+	r.Begin("C07", in)
 	q := &refmodel.LogQuery{}
 	ignoreErr := false
 	sawFail := false
